@@ -28,7 +28,7 @@ func init() {
 				"pipeline limiting is enabled and passes that semaphore on.",
 			NotCovered: "the bound (current <= stop) and liveness over all schedules: they follow from the extracted transition " +
 				"table and the lock/wake-up discipline by an invariant argument that the checker does not mechanise.",
-			Rules: map[string]string{"C18-R19": "the TLS listener wrapper passes on every connection that the wrapped (limiter) listener gave it: after a successful inner Accept every exit of tlsListener.Accept has wrapped the connection for the caller or closed it (a dropped connection keeps its limiter slot for ever)", "C18-R18": "every key of the TCP pipeline limit and the connection limit (ratelimit.tcp, ratelimit.connection_limit) of the documented sample configuration config.dist.yaml is named by a yaml tag of the configuration structure: a setting that the decoder ignores leaves its limiter switched off", "C18-R17": "closing a bind-to-device channel listener (or packet connection) closes its channel, which is what makes a blocked Accept (ReadFrom) return: the first Close closes the channel and marks the listener closed, a second one only reports net.ErrClosed", "C18-R16": "while the limiter's shared mutex (counterCond.L) is held, only the counter, the condition variable, the gauges and the logger are called: no method of the wrapped listener or connection, which may block on a lock of its own while every listener of the limiter waits", "C18-R15": "tlsConn.Close closes the wrapped (limiter) connection on every path", "C18-R14": "ServerDNS.Start and ServerTLS.Start count their TCP accept loop in the wait group that Shutdown waits for before it releases the worker pool", "C18-R12": "the worker pool of the plain-DNS and DoT servers has no capacity limit, so Submit cannot fail on the accept path and strand a connection with its limiter slot (shared with C01-R9)", "C18-R13": "dnssvc.newListeners passes the configured connection limiter to newListenConfig as it is, for every protocol", "C18-R11": "an accepted connection is handed to its worker or closed on every path; closeListeners closes both listeners unconditionally", "C18-RC": "class rules (error chains, shadowed results, character classes, crossed arguments, pool constructors, array pools, loop completeness, loop-carried buffers, replacing setters, complete clones, Grow arithmetic, pooled-buffer escape, sorted searches, fresh decode targets, per-iteration objects, whole-message copies, codec guards) over the packages this property rests on", "C18-R10": "Shutdown waits for the connections before releasing the worker pool", "C18-R1": "counter transition tables", "C18-R2": "counter state only under counterCond.L",
+			Rules: map[string]string{"C18-R20": "marking a stream-capable server stopped closes its listeners in the same step (ServerDNS.shutdown, ServerDNSCrypt.shutdown): every successful return of shutdown is dominated by closeListeners, so a pending accept gives its limiter slot back whatever happens to the rest of Shutdown", "C18-R19": "the TLS listener wrapper passes on every connection that the wrapped (limiter) listener gave it: after a successful inner Accept every exit of tlsListener.Accept has wrapped the connection for the caller or closed it (a dropped connection keeps its limiter slot for ever)", "C18-R18": "every key of the TCP pipeline limit and the connection limit (ratelimit.tcp, ratelimit.connection_limit) of the documented sample configuration config.dist.yaml is named by a yaml tag of the configuration structure: a setting that the decoder ignores leaves its limiter switched off", "C18-R17": "closing a bind-to-device channel listener (or packet connection) closes its channel, which is what makes a blocked Accept (ReadFrom) return: the first Close closes the channel and marks the listener closed, a second one only reports net.ErrClosed", "C18-R16": "while the limiter's shared mutex (counterCond.L) is held, only the counter, the condition variable, the gauges and the logger are called: no method of the wrapped listener or connection, which may block on a lock of its own while every listener of the limiter waits", "C18-R15": "tlsConn.Close closes the wrapped (limiter) connection on every path", "C18-R14": "ServerDNS.Start and ServerTLS.Start count their TCP accept loop in the wait group that Shutdown waits for before it releases the worker pool", "C18-R12": "the worker pool of the plain-DNS and DoT servers has no capacity limit, so Submit cannot fail on the accept path and strand a connection with its limiter slot (shared with C01-R9)", "C18-R13": "dnssvc.newListeners passes the configured connection limiter to newListenConfig as it is, for every protocol", "C18-R11": "an accepted connection is handed to its worker or closed on every path; closeListeners closes both listeners unconditionally", "C18-RC": "class rules (error chains, shadowed results, character classes, crossed arguments, pool constructors, array pools, loop completeness, loop-carried buffers, replacing setters, complete clones, Grow arithmetic, pooled-buffer escape, sorted searches, fresh decode targets, per-iteration objects, whole-message copies, codec guards) over the packages this property rests on", "C18-R10": "Shutdown waits for the connections before releasing the worker pool", "C18-R1": "counter transition tables", "C18-R2": "counter state only under counterCond.L",
 				"C18-R3": "Broadcast after every state change that can release waiters; no Signal",
 				"C18-R4": "slot taken/released exactly once on every accept/close path", "C18-R8": "Close marks the listener closed and wakes all waiting accepts on every path, also when the underlying listener's Close fails",
 				"C18-R7": "limiter wiring: New builds one shared counter with the configured thresholds; Limit hands every listener that shared counter and condition variable; the limiting ListenConfig wraps every stream listener; dnssvc wraps the listen config whenever a limiter is configured; the YAML thresholds reach New unchanged",
@@ -37,6 +37,9 @@ func init() {
 }
 
 func runC18(c *an.Ctx) {
+	// ---- R20: shutdown closes the listeners at once
+	c.Floor("C18-R20", 2)
+	c18ShutdownClosesListeners(c, "C18-R20")
 	// ---- R19: the TLS wrapper never drops a connection it was given
 	c.Floor("C18-R19", 1)
 	c18WrapperKeepsAccepted(c, "C18-R19")
@@ -1138,4 +1141,42 @@ func c18WrapperKeepsAccepted(c *an.Ctx, rule string) {
 	})
 	c.Check(!leak, rule, key, accept.Pos(), "every exit after a successful inner Accept has wrapped or closed the connection",
 		"a path returns after a successful inner Accept without having wrapped or closed the connection: nobody will close it, and its slot in the shared limiter is taken for ever")
+}
+
+// c18ShutdownClosesListeners: a listener wrapped by the connection limiter holds
+// a slot while it waits in Accept.  The servers close their listeners in
+// shutdown(), the step that marks them stopped, before anything that can fail
+// or time out (waiting for connections, the DNSCrypt library's own shutdown).
+// Every return of a nil error from shutdown is dominated by closeListeners.
+func c18ShutdownClosesListeners(c *an.Ctx, rule string) {
+	for _, k := range []string{"dnsserver.(*ServerDNS).shutdown", "dnsserver.(*ServerDNSCrypt).shutdown"} {
+		fn := c.Prog.Fn(k)
+		key := k + " closes the listeners before it reports success"
+		if fn == nil {
+			c.Und(rule, key, token.NoPos, "anchor not found")
+			continue
+		}
+		c.Analysed(k)
+		// the step that marks the server stopped
+		var stop *ssa.Store
+		an.Instrs(fn, func(in ssa.Instruction) {
+			if st, ok := in.(*ssa.Store); ok {
+				if _, f, _, ok := an.FieldOf(st.Addr); ok && f == "started" {
+					if kc, isK := st.Val.(*ssa.Const); isK && kc.Value != nil && kc.Value.String() == "false" {
+						stop = st
+					}
+				}
+			}
+		})
+		if stop == nil {
+			c.Und(rule, key, fn.Pos(), "the store started = false was not found")
+			continue
+		}
+		leak := exitAvoiding(stop, nil, func(in ssa.Instruction) bool {
+			call, ok := in.(ssa.CallInstruction)
+			return ok && strings.HasSuffix(an.CalleeName(call), "ServerBase).closeListeners")
+		})
+		c.Check(!leak, rule, key, stop.Pos(), "closeListeners lies on every path from started = false to a return",
+			"the server is marked stopped at "+c.Pos(stop.Pos())+" and shutdown can return without having closed the listeners: if the rest of Shutdown fails or times out, the (limited) listener stays open and its pending accept keeps a slot of the shared limiter for ever")
+	}
 }
